@@ -12,23 +12,24 @@ variable {D : Type} [LT D] [LE D] [DecidableRel (α := D) (· < ·)] [DecidableR
 /-- paths with fewer than 4 points are returned as they are -/
 theorem simplify_short (dist : Point64 → Point64 → Point64 → D) (maxD : D) (path : Array Point64) (epsSq : D)
     (closed : Bool) (h : path.size < 4) : simplifyPath dist maxD path epsSq closed = path := by
-  sorry
+  unfold simplifyPath
+  simp only [if_pos h]
 
 /-- the result is a sub-sequence of the input -/
 theorem simplify_sublist (dist : Point64 → Point64 → Point64 → D) (maxD : D) (path : Array Point64) (epsSq : D)
     (closed : Bool) : (simplifyPath dist maxD path epsSq closed).toList.Sublist path.toList := by
-  sorry
+  exact Proofs.C16.simplify_sublist dist maxD path epsSq closed
 
 /-- `getNext` returns an unflagged index when one exists -/
 theorem getNext_unflagged (current high : Nat) (flags : Array Bool) (hs : flags.size = high + 1)
     (hc : current ≤ high) (hex : ∃ i, i ≤ high ∧ flags[i]! = false) :
     getNext current high flags ≤ high ∧ flags[getNext current high flags]! = false := by
-  sorry
+  exact Proofs.C16.getNext_unflagged current high flags hc hex
 
 theorem getPrior_unflagged (current high : Nat) (flags : Array Bool) (hs : flags.size = high + 1)
     (hc : current ≤ high) (hex : ∃ i, i ≤ high ∧ flags[i]! = false) :
     getPrior current high flags ≤ high ∧ flags[getPrior current high flags]! = false := by
-  sorry
+  exact Proofs.C16.getPrior_unflagged current high flags hc hex
 
 /-- one step of the removal loop flags exactly one more vertex (so the loop ends within `size` steps) -/
 theorem simplifyStep_flags_one (dist : Point64 → Point64 → Point64 → D) (path : Array Point64) (epsSq : D)
@@ -36,6 +37,6 @@ theorem simplifyStep_flags_one (dist : Point64 → Point64 → Point64 → D) (p
     (hs : s.flags.size = high + 1) :
     s'.flags.size = s.flags.size ∧
     (s'.flags.toList.filter (· = true)).length ≤ (s.flags.toList.filter (· = true)).length + 1 := by
-  sorry
+  exact Proofs.C16.simplifyStep_flags_one dist path epsSq closed high s s' h
 
 end C16
